@@ -393,6 +393,9 @@ fn sequence_asts(max_seps: usize) -> Vec<Ast> {
         Ast::Pre(UnOp::Neg, Box::new(v())),
         Ast::Tuple(vec![v(), Ast::Chain(vec![v(), v()])]),
         Ast::Chain(vec![Ast::Tuple(vec![v(), v()]), Ast::Unit]),
+        // assignments of string literals that spell names the expression uses (targets p, q; variables x, y)
+        Ast::Asg(None, String::new(), Box::new(Ast::Lit(RV::Str("p".into())))),
+        Ast::Asg(None, String::new(), Box::new(Ast::Lit(RV::Str("x".into())))),
     ];
     let mut out = Vec::new();
     for n in 1..=max_seps {
@@ -499,7 +502,7 @@ pub fn run(cfg: &Cfg) -> Report {
     Report {
         property: ID,
         level: "exploration",
-        rule: format!("every AST with <= {k} operator nodes over the full operator alphabet (identifiers in every leaf, assignment-target and function position, named in source order) plus {nseq} sequence-shaped ASTs (`,`/`;` skeletons with <= {seq_n} separators over 11 element shapes incl. absent elements, `()`, nested sequences); per AST: 5 immutable + 5 mutable iterators against the occurrence list of the AST, every consumption style (for_each/fold, last, count, nth after 0..3 calls of next()) against next(), unknown-identifier errors against the lists, and every swap of two variable names / two function names / a name with a fresh name applied through the mutable iterators and to the context. Plus scaling families (sums, products, tuples, call arguments, call chains, assignment chains, prefix chains, statement sequences with n identifiers for every n in 1..20 and up to 129 / 1..40 and up to 400). Non-trivial = at least two identifier occurrences; distinct by normalised tree"),
+        rule: format!("every AST with <= {k} operator nodes over the full operator alphabet (identifiers in every leaf, assignment-target and function position, named in source order) plus {nseq} sequence-shaped ASTs (`,`/`;` skeletons with <= {seq_n} separators over 13 element shapes incl. absent elements, `()`, nested sequences); per AST: 5 immutable + 5 mutable iterators against the occurrence list of the AST, every consumption style (for_each/fold, last, count, nth after 0..3 calls of next()) against next(), unknown-identifier errors against the lists, and every swap of two variable names / two function names / a name with a fresh name applied through the mutable iterators and to the context. Plus scaling families (sums, products, tuples, call arguments, call chains, assignment chains, prefix chains, statement sequences with n identifiers for every n in 1..20 and up to 129 / 1..40 and up to 400). Non-trivial = at least two identifier occurrences; distinct by normalised tree"),
         nontrivial_set: "nontrivial",
         exhaustive: true,
         bound_completed: format!("AST size {k}; sequences with {seq_n} separators"),
